@@ -13,10 +13,7 @@ def stream_query(prefix, wrap, chunks, oc, eosmode, flush1, cl, check14=0, witne
     n = sum(chunks)
     c1 = chunks[0]
     lits = list(cl)
-    if flush1:
-        classes = lits[:c1] + [0] + lits[c1:] + [0]
-    else:
-        classes = lits + [0]
+    classes = lits
     # worst case output: wrapper + 3 blocks of headers/markers + 9 bits per literal
     outcap = D.HDR[wrap] + D.TRL[wrap] + 2 * n + 16
     kmax = 3 * outcap // min(oc, outcap) + 12
